@@ -342,6 +342,7 @@ func checkC10(c *Ctx) {
 		"then an empty filling and a random filling of the translated value through ReverseTranslate vs the model; oracles: empty => entirely unset; error/ok class. non-trivial: chain length >= 2 and a nested struct; distinct = by request text"
 	n := c.scale(1500, 50000)
 	c10Boundaries(c)
+	c10Unicode(c)
 	for i := 0; i < n; i++ {
 		g := &envTypeGen{r: r, used: map[string]bool{}, alias: r.Chance(40), embed: r.Chance(40), colls: r.Chance(40), empties: r.Chance(50)}
 		saved := envLeafTypes
